@@ -106,7 +106,7 @@ def tlc_tuples(text, head):
     buf = None
     for line in text.splitlines():
         if buf is None:
-            if line.startswith('<<"%s"' % head):
+            if line.startswith('<<"%s"' % head) or line.startswith('<< "%s"' % head):
                 buf = line
             else:
                 continue
@@ -219,6 +219,10 @@ class Verdicts:
         for key, (k, n) in sorted(self.known_hits.items()):
             print("KNOWN-FINDING: property=%s %s (%d occurrence(s) in this run; key %s)" % (self.prop, k["what"], n, key))
         if self.violations:
+            cnt = {}
+            for (key, _, _) in self.violations:
+                cnt[key] = cnt.get(key, 0) + 1
+            log("violation keys: %s" % sorted(cnt.items(), key=lambda kv: -kv[1])[:40])
             seen = set()
             for i, (key, what, replay) in enumerate(self.violations):
                 if key in seen:
